@@ -63,4 +63,9 @@ func init() {
 	pKey := GetTypeKey(syscall.Errno(0))
 	RegisterLeafEncoder(pKey, encodeErrno)
 	RegisterLeafDecoder(pKey, decodeErrno)
+	// An errno that originated on another platform travels on as
+	// OpaqueErrno (see encodeOpaqueErrno): decode it again, so that it
+	// keeps its predicates (and becomes a native errno again if it
+	// ever reaches its original platform).
+	RegisterLeafDecoder(GetTypeKey(&OpaqueErrno{}), decodeErrno)
 }
